@@ -80,6 +80,8 @@ type c09BGVCtx struct {
 	sk     *rlwe.SecretKey
 	pk     *rlwe.PublicKey
 	evk    *rlwe.MemEvaluationKeySet
+	// evkLow: the same keys with a relinearization key generated one level below the maximum
+	evkLow *rlwe.MemEvaluationKeySet
 	hash   uint64
 }
 
@@ -109,8 +111,11 @@ func c09BGV(ctx *core.RunCtx, scaleInvariant bool) *c09Scheme {
 			galEls = append(galEls, p.GaloisElementForRowRotation())
 			galEls = append(galEls, p.GaloisElementsForInnerSum(1, 4)...)
 			galEls = append(galEls, p.GaloisElementsForInnerSum(2, 4)...)
-			evk := rlwe.NewMemEvaluationKeySet(kgen.GenRelinearizationKeyNew(sk), kgen.GenGaloisKeysNew(galEls, sk)...)
-			return &c09BGVCtx{params: p, sk: sk, pk: pk, evk: evk, hash: hashKeySet(evk)}
+			gks := kgen.GenGaloisKeysNew(galEls, sk)
+			evk := rlwe.NewMemEvaluationKeySet(kgen.GenRelinearizationKeyNew(sk), gks...)
+			lowQ := p.MaxLevel() - 1
+			evkLow := rlwe.NewMemEvaluationKeySet(kgen.GenRelinearizationKeyNew(sk, rlwe.EvaluationKeyParameters{LevelQ: &lowQ}), gks...)
+			return &c09BGVCtx{params: p, sk: sk, pk: pk, evk: evk, evkLow: evkLow, hash: hashKeySet(evk)}
 		})
 		if x, ok := c.(*c09BGVCtx); ok {
 			cc = x
@@ -248,6 +253,12 @@ func c09BGV(ctx *core.RunCtx, scaleInvariant bool) *c09Scheme {
 		}, callNew: func(e any, a *rlwe.Ciphertext, b any, k int) (*rlwe.Ciphertext, error) {
 			return ev(e).MulRelinNew(a, b)
 		}},
+		{name: "MulRelin(relinearization key of lower level)", op1: []int{vCt}, deg: degRelin, call: func(e any, a *rlwe.Ciphertext, b any, k int, o *rlwe.Ciphertext) error {
+			return ev(e).WithKey(cc.evkLow).MulRelin(a, b, o)
+		}},
+		{name: "MulRelinThenAdd(relinearization key of lower level)", op1: []int{vCt}, accum: true, deg: degRelin, call: func(e any, a *rlwe.Ciphertext, b any, k int, o *rlwe.Ciphertext) error {
+			return ev(e).WithKey(cc.evkLow).MulRelinThenAdd(a, b, o)
+		}},
 		{name: "MulScaleInvariant", op1: []int{vCt, vPt, vVec, vU64}, deg: degMul, call: func(e any, a *rlwe.Ciphertext, b any, k int, o *rlwe.Ciphertext) error {
 			return ev(e).MulScaleInvariant(a, b, o)
 		}, callNew: func(e any, a *rlwe.Ciphertext, b any, k int) (*rlwe.Ciphertext, error) {
@@ -277,7 +288,7 @@ func c09BGV(ctx *core.RunCtx, scaleInvariant bool) *c09Scheme {
 		}},
 		{name: "RotateRows", op1: []int{vNone}, deg: degOne, call: func(e any, a *rlwe.Ciphertext, b any, k int, o *rlwe.Ciphertext) error { return ev(e).RotateRows(a, o) },
 			callNew: func(e any, a *rlwe.Ciphertext, b any, k int) (*rlwe.Ciphertext, error) { return ev(e).RotateRowsNew(a) }},
-		{name: "InnerSum", op1: []int{vNone}, ks: []int{1, 2}, needDeg1: true, deg: degOne, call: func(e any, a *rlwe.Ciphertext, b any, k int, o *rlwe.Ciphertext) error {
+		{name: "InnerSum", op1: []int{vNone}, ks: []int{1, 2}, deg: degSame, call: func(e any, a *rlwe.Ciphertext, b any, k int, o *rlwe.Ciphertext) error {
 			return ev(e).InnerSum(a, k, 4, o)
 		}},
 		{name: "InnerSum(all slots, one batch)", op1: []int{vNone}, needDeg1: true, deg: degOne, call: func(e any, a *rlwe.Ciphertext, b any, k int, o *rlwe.Ciphertext) error {
@@ -515,6 +526,7 @@ type c09CKKSCtx struct {
 	sk     *rlwe.SecretKey
 	pk     *rlwe.PublicKey
 	evk    *rlwe.MemEvaluationKeySet
+	evkLow *rlwe.MemEvaluationKeySet // relinearization key one level below the maximum
 	lts    [5]cklt.LinearTransformation // without and with baby-step giant-step; then the main diagonal alone, both ways; then baby-step giant-step without any diagonal in the first giant step
 }
 
@@ -572,8 +584,11 @@ func c09CKKS(ctx *core.RunCtx) *c09Scheme {
 			}
 			// Average over the quarter-size batches: rotations by slots/4 and slots/2
 			galEls = append(galEls, p.GaloisElementsForInnerSum(slots/4, 4)...)
-			evk := rlwe.NewMemEvaluationKeySet(kgen.GenRelinearizationKeyNew(sk), kgen.GenGaloisKeysNew(galEls, sk)...)
-			return &c09CKKSCtx{params: p, sk: sk, pk: pk, evk: evk, lts: lts}
+			gks := kgen.GenGaloisKeysNew(galEls, sk)
+			evk := rlwe.NewMemEvaluationKeySet(kgen.GenRelinearizationKeyNew(sk), gks...)
+			lowQ := p.MaxLevel() - 1
+			evkLow := rlwe.NewMemEvaluationKeySet(kgen.GenRelinearizationKeyNew(sk, rlwe.EvaluationKeyParameters{LevelQ: &lowQ}), gks...)
+			return &c09CKKSCtx{params: p, sk: sk, pk: pk, evk: evk, evkLow: evkLow, lts: lts}
 		})
 		if x, ok := c.(*c09CKKSCtx); ok {
 			cc = x
@@ -701,6 +716,12 @@ func c09CKKS(ctx *core.RunCtx) *c09Scheme {
 		}, callNew: func(e any, a *rlwe.Ciphertext, b any, k int) (*rlwe.Ciphertext, error) {
 			return ev(e).MulRelinNew(a, b)
 		}},
+		{name: "MulRelin(relinearization key of lower level)", op1: []int{vCt}, deg: degRelin, call: func(e any, a *rlwe.Ciphertext, b any, k int, o *rlwe.Ciphertext) error {
+			return ev(e).WithKey(cc.evkLow).MulRelin(a, b, o)
+		}},
+		{name: "MulRelinThenAdd(relinearization key of lower level)", op1: []int{vCt}, accum: true, deg: degRelin, call: func(e any, a *rlwe.Ciphertext, b any, k int, o *rlwe.Ciphertext) error {
+			return ev(e).WithKey(cc.evkLow).MulRelinThenAdd(a, b, o)
+		}},
 		{name: "MulThenAdd", op1: []int{vCt, vPt, vVecC, vC128, vF64, vInt}, accum: true, deg: degMul, call: func(e any, a *rlwe.Ciphertext, b any, k int, o *rlwe.Ciphertext) error {
 			return ev(e).MulThenAdd(a, b, o)
 		}},
@@ -730,7 +751,7 @@ func c09CKKS(ctx *core.RunCtx) *c09Scheme {
 			}
 			return ev(e).SetScale(a, target)
 		}},
-		{name: "InnerSum", op1: []int{vNone}, ks: []int{1, 2}, needDeg1: true, deg: degOne, call: func(e any, a *rlwe.Ciphertext, b any, k int, o *rlwe.Ciphertext) error {
+		{name: "InnerSum", op1: []int{vNone}, ks: []int{1, 2}, deg: degSame, call: func(e any, a *rlwe.Ciphertext, b any, k int, o *rlwe.Ciphertext) error {
 			return ev(e).InnerSum(a, k, 4, o)
 		}},
 		{name: "RotateHoisted", op1: []int{vNone}, ks: []int{0, 1}, needDeg1: true, deg: degOne, call: func(e any, a *rlwe.Ciphertext, b any, k int, o *rlwe.Ciphertext) error {
